@@ -283,6 +283,25 @@ C05(s) ==
     /\ (s.quiet /\ s.wl.exists => (s.wl.n[s.user.rev] = s.wl.R /\ s.wl.rd[s.user.rev] = s.wl.R))
 
 (***************************************************************************)
+(* C07 - nothing waits on a wake-up that will not come                     *)
+(* s.q is the wake-up state of the two work queues, maintained by the      *)
+(* harness from the REAL event handlers and the real reconcile results;    *)
+(* s.q.stuck: no key pending, no timer, environment quiescent, time cannot *)
+(* change anything.  Then the rollout must be finished or waiting for the  *)
+(* user.                                                                   *)
+(***************************************************************************)
+WaitingForUser(s) ==
+  \/ s.user.rev = 1 /\ ~s.user.rolledBack                         \* no release requested yet
+  \/ s.user.paused
+  \/ s.user.disabled
+  \/ /\ s.ro.exists /\ s.ro.phase = "Progressing" /\ s.ro.reason = "InRolling" /\ s.ro.hasSub
+     /\ s.ro.state = "StepPaused" /\ s.ro.step \in 1..NPlan(s) /\ s.plan[s.ro.step].pause = -1
+  \/ s.ro.exists /\ s.ro.phase = "Progressing" /\ s.ro.reason = "Paused"
+
+C07_A(s) == s.q.on /\ s.q.stuck
+C07(s) == C07_A(s) => (Terminal(s) \/ WaitingForUser(s))
+
+(***************************************************************************)
 (* C09 - no API-reachable object state crashes the controllers             *)
 (***************************************************************************)
 C09_A(p, t, q) == Ctrl(t)
@@ -389,7 +408,7 @@ C18b(s) ==
 (***************************************************************************)
 ActionProps == {"C01a", "C01ro", "C01b", "C01c", "C02", "C02pause", "C02promote",
                 "C03a", "C03b", "C03c", "C09", "C10a", "C11a", "C11b", "C11c", "C11d", "C18a", "C18br"}
-StateProps  == {"C04a", "C04b", "C04c", "C05", "C10b", "C18b"}
+StateProps  == {"C04a", "C04b", "C04c", "C05", "C07", "C10b", "C18b"}
 MidProps    == {"C04a", "C04b", "C04c"}   \* also evaluated after every single API write (crash points)
 
 ActHolds(name, p, t, q) ==
@@ -421,11 +440,13 @@ StateAnte(name, s) ==
     [] name = "C04b" -> C04b_A(s)
     [] name = "C04c" -> s.net.ing \/ (s.net.route /\ (s.net.rtCanaryW >= 0 \/ s.net.rtGenRules > 0))
     [] name = "C05" -> Terminal(s)
+    [] name = "C07" -> C07_A(s)
     [] name = "C10b" -> s.ro.exists /\ s.user.rolledBack /\ s.ro.phase = "Healthy" /\ s.ro.reason = "Completed" /\ s.user.rev = 1
     [] name = "C18b" -> s.ghost.created /\ ~s.ro.exists /\ (s.user.rev >= 2 \/ s.user.rolledBack)
 
 StateHolds(name, s) ==
   CASE name = "C04a" -> C04a(s) [] name = "C04b" -> C04b(s) [] name = "C04c" -> C04c(s)
     [] name = "C05" -> C05(s)   [] name = "C10b" -> C10b(s) [] name = "C18b" -> C18b(s)
+    [] name = "C07" -> C07(s)
 
 =============================================================================
